@@ -47,6 +47,17 @@ def build(case):
         cube = np.stack([rows, rows[::-1]])            # (2 planes, 2 rows, n wavelengths)
         ecube = np.stack([exp, exp[::-1]])
         irr, lamv, exp, axis = np.moveaxis(cube, -1, k).copy(), lam, np.moveaxis(ecube, -1, k), k
+    elif sh in ("q0", "q1"):
+        # coincident extents: as many spectra as wavelengths, so that another axis has the length of the wavelength axis
+        n = len(lam)
+        mult = np.arange(1, n + 1, dtype=float)[:, None]
+        rowsq = np.vstack([rows[i % len(rows)] for i in range(n)]) * mult          # (n spectra, n wavelengths)
+        expq = np.vstack([exp[i % len(exp)] for i in range(n)]) * mult
+        if sh == "q0":
+            irr, lamv, exp, axis = rowsq.T.copy(), lam, expq.T, 0
+        else:
+            cube, ecube = np.stack([rowsq, rowsq[::-1]]), np.stack([expq, expq[::-1]])
+            irr, lamv, exp, axis = np.moveaxis(cube, -1, 1).copy(), lam, np.moveaxis(ecube, -1, 1), 1
     else:
         irr, lamv = rows, lam
     if um == "pint-I":
@@ -139,6 +150,9 @@ def run(ctx):
     tlc.cleanup(res)
     if not cases:
         raise MachineryFailure("no cases")
+    # harness-level layouts of the same abstract cases: square / cubic arrays in which another axis has the same
+    # length as the wavelength axis
+    cases += [dict(c, shape="q0") for c in cases if c["shape"] == "m0"] + [dict(c, shape="q1") for c in cases if c["shape"] == "c1"]
     parts = pmap(_chunk, [cases[i:i + 100] for i in range(0, len(cases), 100)], chunksize=1)
     flat = [b for p in parts for b in p]
     for c, bad in zip(cases, flat):
